@@ -48,6 +48,10 @@ def _reach_jobs(tier, seed):
     for kinds in itertools.product(KINDS, repeat=2):
         for roles in itertools.product("LUF", repeat=2):
             jobs.append(dict(n=2, kinds=list(kinds), roles=list(roles), _cost=1))
+    for thr in (1e-3, 1e-9):
+        # the solver's own threshold (not the default) is what the loop must honour
+        jobs.append(dict(n=3, kinds=[PR, P1, PR], roles=["L", "L", "F"], fixed_last=True, thr=thr, _cost=10))
+        jobs.append(dict(n=3, kinds=[P2, PR, PR], roles=["L", "L", "F"], fixed_last=True, thr=thr, _cost=10))
     for kinds in itertools.product(KINDS, repeat=2):
         # two listed states in front of an absorbing final state: the smallest shape in which one state's
         # update can be small while the other's is large
@@ -70,7 +74,7 @@ def _reach_jobs(tier, seed):
          desc="real Solver.value_iteration_reachability, last sweep from an arbitrary state: on return every listed state "
               "has Bellman residual <= threshold, unlisted and final states are untouched, the diagnostic vector is seeded, "
               "the sweep count is returned, and 'no solution' is raised iff pruning and state 0 has value exactly 0")
-def loop_reach(sp, n, kinds, roles, fixed_last=False):
+def loop_reach(sp, n, kinds, roles, fixed_last=False, thr=None):
     t = tad_merged()
     succ, states = _build(sp, n, kinds, fixed_last=fixed_last)
     pre = []
@@ -84,7 +88,7 @@ def loop_reach(sp, n, kinds, roles, fixed_last=False):
         states[i].expected_reach_min_rewards = sp.real("q%d" % i, 0, 1)
     listed = [i for i in range(n) if roles[i] == "L"]
     prune = sp.bool("prune")
-    solver = t.Solver(state_list=states, threshold=10 ** (-6))
+    solver = t.Solver(state_list=states, threshold=(thr if thr is not None else 10 ** (-6)))
     thr = solver.threshold
     raised = False
     try:
